@@ -199,12 +199,34 @@ def holdLast (d : Dec) (p : Pkt) (y : Bool) (obus : List Bytes) : Dec × Except 
     if obus.isEmpty then (d, .error .more) else (d, .ok obus)
   else (d, .ok obus)
 
+/-- `decodeOBUs` after the element loop: "first OBU is continuation of previous one" (with the
+repair: a packet with Z = 0 discards stale fragments), then `holdLast` -/
+def afterParse (d : Dec) (p : Pkt) (z y : Bool) (obus : List Bytes) : Dec × Except Fail (List Bytes) :=
+  if z then
+    if d.fragmentsSize = 0 then
+      (d, .error (if !d.firstPacketReceived then .nonStart else .err))
+    else
+      let d := { d with firstPacketReceived := true }
+      if p.seq ≠ d.nextSeq then (d.resetFragments, .error .err)
+      else
+        let obu0 := obus.headD []
+        let sz := d.fragmentsSize + obu0.length
+        if sz > CodecAv1vp.av1MaxTemporalUnitSize then (d.resetFragments, .error .err)
+        else
+          let d := { d with fragmentsSize := sz, fragments := d.fragments ++ [obu0], nextSeq := d.nextSeq + 1 }
+          if obus.length = 1 ∧ y then (d, .error .more)
+          else
+            let obus := joinFragments d.fragments d.fragmentsSize :: obus.tail
+            holdLast d.resetFragments p y obus
+  else
+    holdLast ({ d with firstPacketReceived := true }).resetFragments p y obus
+
 /-- `Decoder.decodeOBUs` -/
 def decodeOBUs (d : Dec) (p : Pkt) : Dec × Except Fail (List Bytes) :=
-  match p.payload with
-  | [] => (d, .error .err)
-  | [_] => (d, .error .err)
-  | b0 :: payload =>
+  if p.payload.length < 2 then (d, .error .err)
+  else
+    let b0 := p.payload.headD 0
+    let payload := p.payload.tail
     let z := tb b0 0x80
     let y := tb b0 0x40
     let w := ((b0 >>> 4) &&& 3).toNat
@@ -212,40 +234,27 @@ def decodeOBUs (d : Dec) (p : Pkt) : Dec × Except Fail (List Bytes) :=
     | none => (d.resetFragments, .error .err)
     | some obus =>
       if w ≠ 0 ∧ obus.length ≠ w then (d, .error .err)
-      else if z then
-        if d.fragmentsSize = 0 then
-          (d, .error (if !d.firstPacketReceived then .nonStart else .err))
-        else
-          let d := { d with firstPacketReceived := true }
-          if p.seq ≠ d.nextSeq then (d.resetFragments, .error .err)
-          else
-            let obu0 := obus.headD []
-            let sz := d.fragmentsSize + obu0.length
-            if sz > CodecAv1vp.av1MaxTemporalUnitSize then (d.resetFragments, .error .err)
-            else
-              let d := { d with fragmentsSize := sz, fragments := d.fragments ++ [obu0], nextSeq := d.nextSeq + 1 }
-              if obus.length = 1 ∧ y then (d, .error .more)
-              else
-                let obus := joinFragments d.fragments d.fragmentsSize :: obus.tail
-                holdLast d.resetFragments p y obus
-      else
-        holdLast ({ d with firstPacketReceived := true }).resetFragments p y obus
+      else afterParse d p z y obus
+
+/-- `Decode` after `decodeOBUs` succeeded: count / size caps, append to the frame buffer, return it
+at the marker -/
+def pushFrame (d : Dec) (marker : Bool) (obus : List Bytes) : Dec × DecRes (List Bytes) :=
+  let l := obus.length
+  if d.frameBufferLen + l > CodecAv1vp.av1MaxOBUsPerTemporalUnit then (d.resetFrameBuffer, .err)
+  else
+    let addSize := totalLen obus
+    if d.frameBufferSize + addSize > CodecAv1vp.av1MaxTemporalUnitSize then (d.resetFrameBuffer, .err)
+    else
+      let d := { d with frameBuffer := d.frameBuffer ++ obus, frameBufferLen := d.frameBufferLen + l,
+                        frameBufferSize := d.frameBufferSize + addSize }
+      if !marker then (d, .more)
+      else (d.resetFrameBuffer, .ok d.frameBuffer)
 
 /-- `Decoder.Decode` -/
 def decode (d : Dec) (p : Pkt) : Dec × DecRes (List Bytes) :=
   match decodeOBUs d p with
   | (d, .error f) => (d, f.toRes)
-  | (d, .ok obus) =>
-    let l := obus.length
-    if d.frameBufferLen + l > CodecAv1vp.av1MaxOBUsPerTemporalUnit then (d.resetFrameBuffer, .err)
-    else
-      let addSize := totalLen obus
-      if d.frameBufferSize + addSize > CodecAv1vp.av1MaxTemporalUnitSize then (d.resetFrameBuffer, .err)
-      else
-        let d := { d with frameBuffer := d.frameBuffer ++ obus, frameBufferLen := d.frameBufferLen + l,
-                          frameBufferSize := d.frameBufferSize + addSize }
-        if !p.marker then (d, .more)
-        else (d.resetFrameBuffer, .ok d.frameBuffer)
+  | (d, .ok obus) => pushFrame d p.marker obus
 
 /-- payload bytes the decoder state keeps referenced between calls -/
 def retained (d : Dec) : Nat := totalLen d.fragments + totalLen d.frameBuffer
